@@ -176,7 +176,7 @@ def run_c20(tier, seed, out):
     log("[C20] model checking Dns.tla (lookups, cache, queries and replies in any delivery order)")
     model(out, "MC_Dns.tla", DNS_CFG % (4 if tier == "quick" else 5), "dns", workers=8, timeout=900)
     log("[C20] real DnsServer / DnsClients with delayed frames validated by TraceDns.tla")
-    drive_validate_resumable(out, "C20", HV_CORE, "dns-drive", "TraceDns", 300 if tier == "quick" else 20000, seed, "lookup scenarios")
+    drive_validate_resumable(out, "C20", HV_CORE, "dns-drive", "TraceDns", 300 if tier == "quick" else 5000, seed, "lookup scenarios")
     tp = os.path.join(workdir("fn-C20"), "dns-long.ndjson")
     args = ["dns-drive", "--seed", str(seed + 1), "--long-names", "--out", tp]
     n = 80 if tier == "quick" else 1000
